@@ -24,6 +24,26 @@ def PTree.glyphsList : List PTree → Aff → List (String × Aff)
 end
 
 mutual
+/-- the same walk with the order COLR prescribes (a child transform applies before its ancestors') -/
+def PTree.colrGlyphs : PTree → Aff → List (String × Aff)
+  | .glyph n, acc => [(n, acc)]
+  | .node t kids, acc => PTree.colrGlyphsList kids (Aff.composeLtr [t, acc])
+def PTree.colrGlyphsList : List PTree → Aff → List (String × Aff)
+  | [], _ => []
+  | k :: ks, acc => PTree.colrGlyphs k acc ++ PTree.colrGlyphsList ks acc
+end
+
+mutual
+/-- at most one non-identity transform on every root-to-leaf path (`seen` = one is already above) -/
+def PTree.singleTransform : Bool → PTree → Bool
+  | _, .glyph _ => true
+  | seen, .node t kids => if t = Aff.id then PTree.singleTransformList seen kids else (!seen && PTree.singleTransformList true kids)
+def PTree.singleTransformList : Bool → List PTree → Bool
+  | _, [] => true
+  | seen, k :: ks => PTree.singleTransform seen k && PTree.singleTransformList seen ks
+end
+
+mutual
 def PTree.countGlyphs : PTree → Nat
   | .glyph _ => 1
   | .node _ kids => PTree.countList kids
